@@ -52,6 +52,12 @@ CHECKS = {
  "C04": dict(engine="M", technique=M_TECH,
    text="Symbolic execution (z3) of one poll of ConnectionInner::poll_control (111 MIR blocks, with poll_grease_stream, InternalConnectionError::new/got_frame_error inlined) from an arbitrary pre-state (got_peer_settings, grease flag, grease step symbolic) over EVERY decoder outcome on the control stream (8 frame kinds, 6 decoder errors, end of stream, reset, unknown and transport errors, pending) and every behaviour of the endpoint's own grease stream (open / send / ready / finish: ok, pending, error): the error raised is exactly the code the property names (MISSING_SETTINGS, FRAME_UNEXPECTED, CLOSED_CRITICAL_STREAM, FRAME_ERROR, SETTINGS_ERROR, ID_ERROR), legal frames are returned, no path takes a frame and returns Pending, the first SETTINGS is applied; plus the role layers (server poll_next_control, client poll_close) over every frame kind poll_control returns.",
    note="NOT covered: ConnectionInner::poll_accept_recv (duplicate control/encoder/decoder streams, unknown stream types, streams closed before their type) — its Vec/iterator/closure plumbing is outside the supported MIR subset for now — and AcceptRecvStream::poll_type. Unknown frame types never surface from the decoder (C02). Contracts: FrameStream::poll_next hands out one arbitrary event per call; transport open/write/finish return ready/pending/error arbitrarily; handle_connection_error is analysed under C05. Counterexamples are replayed natively before being reported.", ref="DESIGN.md §5 C04"),
+ "C03": dict(engine="M", technique=M_TECH,
+   text="Symbolic execution (z3) of the MIR of server::RequestResolver::accept_with_frame and connection::RequestStream::{poll_recv_data, poll_recv_trailers} (with the frame-stream error mapping, handle_quic_stream_error and InternalConnectionError::{new,got_frame_error} inlined), driven through the documented call pattern (accept; recv_data until None; recv_trailers) against a symbolic decoder script: at every decoder call each of 16 letters (HEADERS, DATA(0), DATA(n), CANCEL_PUSH, SETTINGS, GOAWAY, MAX_PUSH_ID, PUSH_PROMISE, HTTP/2-reserved, malformed, truncated, FIN, RESET(any code), transport stream error, connection close, pending) is explored, scripts of up to 4 (quick) / 5 (thorough) decoder events; DATA payload delivery with chunking, pending, reset and truncation inside the payload; QPACK decoder and field validators accept / refuse for size / refuse as malformed. Every path is compared with the property's verdict computed from the consumed script. C03 part: valid sequences deliver the message, end-of-body only when the body really ended, first out-of-sequence known frame is H3_FRAME_UNEXPECTED, FIN before HEADERS is reset + stream error H3_REQUEST_INCOMPLETE without connection error.",
+   note="Server receive side only (the client's recv_response coroutine is not analysed; the client shares poll_recv_data/poll_recv_trailers). Unknown frame types never surface from the decoder (C02). 'Every payload byte exactly once and in order' is covered only as: a chunk is handed out exactly when the decoder contract delivers one (the byte-level buffer handling is BufList/Bytes, outside the subset). Contracts: FrameStream::{poll_next,poll_data,has_data,is_eos}, decode_stateless, Header::try_from; handle_connection_error_on_stream is analysed under C05. Counterexamples are replayed natively before being reported.", ref="DESIGN.md §5 C03"),
+ "C07": dict(engine="M", technique=M_TECH,
+   text="Symbolic execution (z3) of the MIR of server::RequestResolver::accept_with_frame and connection::RequestStream::{poll_recv_data, poll_recv_trailers} (with the frame-stream error mapping, handle_quic_stream_error and InternalConnectionError::{new,got_frame_error} inlined), driven through the documented call pattern (accept; recv_data until None; recv_trailers) against a symbolic decoder script: at every decoder call each of 16 letters (HEADERS, DATA(0), DATA(n), CANCEL_PUSH, SETTINGS, GOAWAY, MAX_PUSH_ID, PUSH_PROMISE, HTTP/2-reserved, malformed, truncated, FIN, RESET(any code), transport stream error, connection close, pending) is explored, scripts of up to 4 (quick) / 5 (thorough) decoder events; DATA payload delivery with chunking, pending, reset and truncation inside the payload; QPACK decoder and field validators accept / refuse for size / refuse as malformed. Every path is compared with the property's verdict computed from the consumed script. C07 part: RESET(code) is StreamError::RemoteTerminate{code} with the peer's code, a transport-specific stream error is passed through as Undefined, an oversized trailer section is HeaderTooBig, malformed trailers are StreamError H3_MESSAGE_ERROR + stop_sending, FIN before HEADERS is H3_REQUEST_INCOMPLETE: on none of these paths is the shared connection-error cell written (no set_conn_error*, no handle_connection_error_on_stream, no close).",
+   note="The isolation argument is: request handles share only SharedState, and the analysed functions do not write it on stream-scoped fault paths. That concurrent healthy requests receive exactly their own bytes is by construction (separate per-stream buffers) and is NOT solver-checked; ResolvedRequest::resolve (malformed request headers, 431 answer) and send-side STOP_SENDING handling are async coroutines that are not analysed.", ref="DESIGN.md §5 C07"),
  # --- more checks are appended above this line ---
 }
 
